@@ -53,10 +53,38 @@ func (pq *plotterQueue) Pop() (*queuedWorkSpace, float32) {
 	return ws, priority
 }
 
+// Push, Empty and Size shadow the embedded queue's methods so that every
+// access goes through the mutex (StopWS/RemoveWS/DeleteWS rebuild the queue
+// from other goroutines while the plotter pushes and pops).
+func (pq *plotterQueue) Push(data interface{}, priority float32) {
+	pq.Lock()
+	defer pq.Unlock()
+
+	pq.Prque.Push(data, priority)
+}
+
+func (pq *plotterQueue) Empty() bool {
+	pq.Lock()
+	defer pq.Unlock()
+
+	return pq.Prque.Empty()
+}
+
+func (pq *plotterQueue) Size() int {
+	pq.Lock()
+	defer pq.Unlock()
+
+	return pq.Prque.Size()
+}
+
+// PopItem returns nil if the queue has been emptied since the caller looked.
 func (pq *plotterQueue) PopItem() *queuedWorkSpace {
 	pq.Lock()
 	defer pq.Unlock()
 
+	if pq.Prque.Empty() {
+		return nil
+	}
 	ws := pq.Prque.PopItem().(*queuedWorkSpace)
 	pq.poppedItem = ws
 	return ws
@@ -67,7 +95,7 @@ func (pq *plotterQueue) Delete(sid string) {
 	defer pq.Unlock()
 
 	newQueue := prque.New()
-	for !pq.Empty() {
+	for !pq.Prque.Empty() {
 		qws, priority := pq.Prque.Pop()
 		if qws.(*queuedWorkSpace).ws.id.String() == sid {
 			continue
@@ -176,6 +204,9 @@ func (sk *SpaceKeeper) spacePlotter() {
 			}
 
 			qws := sk.queue.PopItem()
+			if qws == nil {
+				continue
+			}
 			verifhook.Point("plotter.popped", sk, qws.ws.id.String())
 			killMonitorCh := make(chan struct{}, 1)
 			wg.Add(1)
